@@ -52,7 +52,7 @@ def main(tier):
         return None
 
     cl = layerb.corrupt_and_validate(events, swap_loaded)
-    chk.control("loaded-content-differs-rejected", cl is not None and "loaded-state-differs-from-archive" in cl, str(cl))
+    chk.control("loaded-content-differs-rejected", cl is not None and "loaded-state-differs-from-archive" in cl, str(cl), impl_dependent=True)
 
     def wrong_meta(bad):
         for i, e in enumerate(bad):
@@ -62,7 +62,7 @@ def main(tier):
         return None
 
     cl = layerb.corrupt_and_validate(events, wrong_meta)
-    chk.control("archive-meta-differs-rejected", cl is not None and "archive-differs-after-save" in cl, str(cl))
+    chk.control("archive-meta-differs-rejected", cl is not None and "archive-differs-after-save" in cl, str(cl), impl_dependent=True)
 
     def lost_entry(bad):
         for i, e in enumerate(bad):
@@ -74,7 +74,7 @@ def main(tier):
 
     cl = layerb.corrupt_and_validate(events, lost_entry)
     if cl is not None:
-        chk.control("postfix-save-dropping-entry-rejected", "archive-differs-after-save" in cl, str(cl))
+        chk.control("postfix-save-dropping-entry-rejected", "archive-differs-after-save" in cl, str(cl), impl_dependent=True)
     return chk.finish(
         rule="behaviours of PyDRexC17 drawn by tlc -simulate (distinct call sequences); every call's post-state (minerals and archives) compared with the specification",
         exhaustive=False,
